@@ -161,6 +161,11 @@ def place_str(place):
     return "_%d%s" % (place["l"], "".join(proj_names(place)))
 
 
+# calls that only re-borrow their argument (looked through by access paths)
+TRANSPARENT = ("::Deref>::deref", "::DerefMut>::deref_mut", "::AsRef<T>>::as_ref", "::AsRef<std::path::Path>>::as_ref",
+               "::Borrow<T>>::borrow", "PathBuf::as_path", "String::as_str", "::AsRef<str>>::as_ref", "::AsMut<T>>::as_mut")
+
+
 class Fn:
     """One MIR body with CFG helpers."""
 
@@ -434,6 +439,8 @@ class Fn:
             t = d[2]
             name = t["callee"]["path"] if "callee" in t else "<indirect>"
             args = tuple(self.apath(a, depth - 1) for a in t["args"])
+            if len(args) == 1 and name.endswith(TRANSPARENT):
+                return (args[0][0], args[0][1] + tuple(projs))
             return (("call", name, args, d[1]), tuple(projs))
         rv = d[3]
         k = rv["k"]
